@@ -39,6 +39,10 @@ class Resp:
         for c in self._chunks:
             yield c
 
+    async def aiter_lines(self):
+        for line in self._lines:
+            yield line
+
 
 _NOJSON = object()
 
@@ -251,6 +255,34 @@ def tw_binary_stream(n: int, k: int) -> bool:
     r = Resp(200, _NOJSON, ctype="application/octet-stream")
     r._chunks = []
     collect(ep.DefaultClient(T(r), "http://h").get_blob())
+    return False
+
+
+ND_IDS = [0, 7, -3]
+
+
+def ob_ndjson_stream(n: int, i: int, j: int, blank: bool) -> bool:
+    """
+    pre: 0 <= n <= 2 and 0 <= i < 3 and 0 <= j < 3
+    post: _
+    """
+    ids = [ND_IDS[i], ND_IDS[j]][:n]
+    r = Resp(200, _NOJSON, ctype="application/x-ndjson")
+    r._lines = ['{"id": %d}' % k for k in ids]
+    if blank:
+        r._lines.insert(0, "")  # a blank keep-alive line carries no record
+    items = collect(ep.DefaultClient(T(r), "http://h").tail_items())
+    return len(items) == n and all(isinstance(x, Item) and x.id_ == k for x, k in zip(items, ids))
+
+
+def tw_ndjson_stream(n: int, i: int, j: int, blank: bool) -> bool:
+    """
+    pre: 0 <= n <= 2 and 0 <= i < 3 and 0 <= j < 3
+    post: _
+    """
+    r = Resp(200, _NOJSON, ctype="application/x-ndjson")
+    r._lines = ['{"id": %d}' % ND_IDS[i]]
+    collect(ep.DefaultClient(T(r), "http://h").tail_items())
     return False
 
 
